@@ -91,4 +91,12 @@ var Registry = map[string]func(c *Ctx, arg string) error{
 		RunSubmitScenarios(c)
 		return nil
 	},
+	"queue": func(c *Ctx, arg string) error {
+		RunQueue(c)
+		return nil
+	},
+	"txflow": func(c *Ctx, arg string) error {
+		RunTxFlow(c)
+		return nil
+	},
 }
